@@ -495,8 +495,8 @@ pub const STAGES: &[Stage] = &[
 
 pub fn run(rc: &mut RunCtx) {
     rc.run_indexed(STAGES[1], 6 * 5 * 3, true, &|k| Input::Args(vec![k / 15, (k / 3) % 5, k % 3]));
-    rc.run_pt(STAGES[0], rc.pick(40_000, 800_000), (96, 500));
-    rc.run_pt(STAGES[2], rc.pick(40_000, 800_000), (96, 500));
+    rc.run_pt(STAGES[0], rc.pick(160_000, 800_000), (96, 500));
+    rc.run_pt(STAGES[2], rc.pick(160_000, 800_000), (96, 500));
     rc.require_label("single_fault", "overrun_through_unknown_size_master", 5_000);
     for l in ["fault_unknown_id", "fault_misplaced", "fault_overrun", "fault_oversize", "fault_unknown_id_and_overrun", "own_class_tolerated", "limit_untouched"] {
         rc.require_label("single_fault", l, 20_000);
